@@ -3,7 +3,7 @@
    layer stays a parameter (the driver supplies an oracle table recorded from the
    real StateProcessor). *)
 From AQ Require Import Lib.Bytes Lib.ExtractBase Lib.Keccak Rlp.RlpSpec Trie.MptSpec Trie.TrieModel
-  Bloom.BloomModel Import.ImportModel.
+  Bloom.BloomModel Import.ImportModel Import.DeriveShaCode.
 Require Extraction.
 Require Import ExtrOcamlBasic.
 Local Open Scope N_scope.
@@ -19,20 +19,13 @@ Definition k_validate_state (h : header) (rs : list receipt) (used : N) (root : 
 Definition k_import_block := import_block keccak256.
 Definition k_build_block := build_block keccak256.
 
-(* DeriveSha as the code does it: trie.Update(rlp(i), item_i) on an empty trie (no
-   database), then trie.Hash — with the code-shaped trie of Trie/TrieModel.v.  The
-   driver checks it against k_derive_sha on every request. *)
-Fixpoint ds_insert (t : TrieModel.trie) (i : N) (l : list bytes) : TrieModel.res TrieModel.trie :=
-  match l with
-  | [] => TrieModel.Ok t
-  | x :: r => TrieModel.bind (TrieModel.trie_update t [] (encode_uint i) x) (fun t' => ds_insert t' (i + 1) r)
-  end.
+(* DeriveSha as the code does it (Import/DeriveShaCode.v: trie.Update(rlp(i), item_i) on an empty
+   trie without database, then trie.Hash, over the code-shaped trie of Trie/TrieModel.v).
+   Proved equal to k_derive_sha (C01_derive_sha_code_is_spec); the driver still compares the two
+   on every request. *)
 Definition k_derive_sha_code (items : list bytes) : option bytes :=
-  match ds_insert TrieModel.empty_trie 0 items with
-  | TrieModel.Ok t => match TrieModel.trie_hash keccak256 t with
-                      | TrieModel.Ok (h, _) => Some h
-                      | _ => None
-                      end
+  match derive_sha_code keccak256 [] items with
+  | TrieModel.Ok h => Some h
   | _ => None
   end.
 
